@@ -267,9 +267,52 @@ def run_c02(tier):
             chk.corr_compared += 1
             if dec != canon_model(c, ans[2 * i + 1]):
                 chk.correspondence_mismatch('Py.decode = Message.decode', dict(casej, data=enc['bytes']), dec, ans[2 * i + 1])
+        long_arrays(chk, corpus)
     finally:
         corpus.close()
     return chk.finish()
+
+
+def classify_c02(case, detail):
+    """D49: an array / bytes field with more than 65536 elements encodes, but decode refuses its counter"""
+    dec = detail.get('decoded')
+    if case.get('longest_array', 0) > 65536 and isinstance(dec, dict) and dec.get('exc') == 'ProphyError':
+        return 'D49'
+    return None
+
+
+def long_arrays(chk, corpus):
+    """the decoder's counter guard (65536): the boundary must round-trip, one more element is finding D49"""
+    reqs, rows = [], []
+    for c in corpus.types:
+        if c.sidx != 0 or c.name not in ('Dy',):
+            continue
+        for n in (65536, 65537):
+            v = V.default_value(c.tree)
+            for i, m in enumerate(c.tree['ms']):
+                if m['mk'] == 'dyn' and m['t'].get('p') == 'u8':
+                    v['s'][i] = [(7 * j) % 251 for j in range(n)]
+                    break
+                if m['mk'] == 'dyn' and m['t'].get('k') == 'byte':
+                    v['s'][i] = {'b': ''.join('%02x' % ((7 * j) % 251) for j in range(n))}
+                    break
+            for e in ENDIAN:
+                m1, enc = encode_impl(c, v, e)
+                casej = {'schema': 'corpus', 'type': c.name, 'value': 'array of %d elements (7*j mod 251)' % n, 'endianness': e, 'longest_array': n}
+                chk.count((c.name, n, e), True)
+                chk.bump('long-array:%d' % n)
+                if 'bytes' not in enc:
+                    chk.property_violation(casej, {'what': 'encode raised', 'encode': enc})
+                    continue
+                m2, dec = decode_impl(c, bytes.fromhex(enc['bytes']), e)
+                if dec != {'val': v, 'size': len(enc['bytes']) // 2}:
+                    chk.property_violation(casej, {'what': 'decode(encode(v)) differs from (v, len)', 'decoded': dec if 'exc' in dec else 'another value'}, classify_c02)
+                reqs.append({'op': 'py_decode', 't': c.tid, 'data': enc['bytes'], 'e': e})
+                rows.append((c, casej, dec))
+    for (c, casej, dec), a in zip(rows, client.batch(corpus.deft_requests() + reqs)[len(corpus.types):]):
+        chk.corr_compared += 1
+        if dec != canon_model(c, a):
+            chk.correspondence_mismatch('Py.decode = Message.decode (long arrays)', casej, 'exc' in dec and dec or 'value', 'exc' in a and a or 'value')
 
 
 # ----------------------------------------------------------------------------- C06
